@@ -207,6 +207,42 @@ func rNorm(p string) (toks []rTok, names []string, textAfterStar bool) {
 	return toks, names, false
 }
 
+// rWFTable: the harness's own reading of "well-formed table" (Lean: Router.Tree.wfTable): no pattern
+// with an escaped colon or text after `*`, no two routes with the same method and normalised pattern.
+func rWFTable(routes []rRoute) bool {
+	seen := map[string]bool{}
+	for _, r := range routes {
+		toks, _, after := rNorm(r.Path)
+		if after {
+			return false
+		}
+		p := r.Path
+		if p == "" || p[0] != '/' {
+			p = "/" + p
+		}
+		// an escape met by the scan (a backslash-colon inside a parameter name is part of the name)
+		for i := 0; i < len(p); i++ {
+			if p[i] == '\\' && i+1 < len(p) && p[i+1] == ':' {
+				return false
+			}
+			if p[i] == ':' {
+				for i < len(p) && p[i] != '/' {
+					i++
+				}
+				i--
+			} else if p[i] == '*' {
+				break
+			}
+		}
+		k := r.Method + " " + rTokKey(toks)
+		if seen[k] {
+			return false
+		}
+		seen[k] = true
+	}
+	return true
+}
+
 func rTokKey(toks []rTok) string {
 	var b strings.Builder
 	for _, t := range toks {
